@@ -1,0 +1,84 @@
+//go:build verif
+
+package threadgroup
+
+import (
+	"runtime"
+	"sync"
+	"sync/atomic"
+	"unsafe"
+)
+
+// A VerifEvent is one atomic step of instrumented code, recorded in the order
+// in which the steps were linearised (the recorder is called from inside the
+// critical section that performs the step).
+type VerifEvent struct {
+	Seq  int    // position in the global order
+	G    int    // id of the goroutine that performed the step
+	Kind string // which step
+	A, B int    // step-specific arguments (object identity, counter value)
+}
+
+var verifRec struct {
+	on     atomic.Bool
+	mu     sync.Mutex
+	events []VerifEvent
+}
+
+// VerifStart discards any recorded events and starts recording.
+func VerifStart() {
+	verifRec.mu.Lock()
+	verifRec.events = nil
+	verifRec.mu.Unlock()
+	verifRec.on.Store(true)
+}
+
+// VerifStop stops recording and returns the recorded events.
+func VerifStop() []VerifEvent {
+	verifRec.on.Store(false)
+	verifRec.mu.Lock()
+	defer verifRec.mu.Unlock()
+	ev := verifRec.events
+	verifRec.events = nil
+	return ev
+}
+
+// VerifSnapshot returns a copy of the events recorded so far.
+func VerifSnapshot() []VerifEvent {
+	verifRec.mu.Lock()
+	defer verifRec.mu.Unlock()
+	return append([]VerifEvent(nil), verifRec.events...)
+}
+
+func verifGoID() int {
+	var buf [40]byte
+	n := runtime.Stack(buf[:], false)
+	// "goroutine 123 [running]:"
+	id := 0
+	for _, c := range buf[len("goroutine "):n] {
+		if c < '0' || c > '9' {
+			break
+		}
+		id = id*10 + int(c-'0')
+	}
+	return id
+}
+
+// VerifRecord appends an event; other instrumented packages record through it
+// so that all events share one order.
+func VerifRecord(kind string, a, b int) {
+	if !verifRec.on.Load() {
+		return
+	}
+	g := verifGoID()
+	verifRec.mu.Lock()
+	verifRec.events = append(verifRec.events, VerifEvent{Seq: len(verifRec.events), G: g, Kind: kind, A: a, B: b})
+	verifRec.mu.Unlock()
+}
+
+func verifEvent(kind string, a, b int) { VerifRecord(kind, a, b) }
+
+func verifID(tg *ThreadGroup) int { return int(uintptr(unsafe.Pointer(tg))) }
+
+// VerifID returns the identity under which tg appears in recorded events.
+func (tg *ThreadGroup) VerifID() int { return verifID(tg) }
